@@ -56,6 +56,14 @@
    - C05_monitor_general / C05_monitor_closed (DenseOnlineMonMore.v): the IA-STL
      predicate kinds, constants at almost every position, sqrt / ln under a
      no-raise hypothesis, progress for since-free formulas.
+   Tie between the hand models of the operation classes and the Python text (DenseOnlineGen.v is GENERATED from
+   rtamt/semantics/{stl,arithmetic}/dense_time/online/*_operation.py by tools/py2coq_denseonline.py on every build;
+   intersection(), the bounded operations, predicate, constant and variable stay hand-modelled and are pinned by digest):
+   - C05_generated_operations: the generated update() of the 21 translated classes IS the hand model of its operation
+     (bin_update_g f / mul_update_g / unary_update f / fold_update g / since_update), for every type of stamps, every
+     state, every batch(es); None = an exception on both sides.
+   - C05_generated_binary_chunking: hence C05_binary_run holds of the generated and / or / implies / iff / xor /
+     addition / subtraction / division / pow / log classes themselves.
    Outside the proved fragment (modelled and compared only): a constant
    sub-formula that is not a literal under a bounded operator, since[a,b] with
    two constant operands, signals that start after 0 (the open known finding). *)
@@ -63,6 +71,7 @@ From Coq Require Import List ZArith Lia.
 From RV Require Import Val Syntax Rho Dense DenseSem DenseLaws ExtZ DenseMerge DenseMergeCorrect DenseOnlineMerge DenseOnlineMergeCorrect
   DenseSinceCorrect DenseOnlineFold DenseOnlineFoldCorrect DenseOnlineWin DenseOnlineWinCorrect.
 From RV Require DenseOnlineMon DenseOnlineMonCorrect DenseOnlineMonMore DenseIA.
+From RV Require Import PyDense DenseOnlineGen DenseOnlineGenCorrect.
 Import ListNotations.
 Local Open Scope Z_scope.
 
@@ -345,3 +354,85 @@ Example C05_nonvacuous :
   map (rhoZ ExtZArith (fun _ _ => PStd) W2 7 p) [0; 3; 6] = map (rhoZ ExtZArith (fun _ _ => PStd) W1 4 p) [0; 3; 6] /\
   rhoZ ExtZArith (fun _ _ => PStd) W2 7 p 7 <> rhoZ ExtZArith (fun _ _ => PStd) W1 4 p 7.
 Proof. cbv zeta. repeat split; try reflexivity. vm_compute. discriminate. Qed.
+
+(* ---------------- the operation classes as GENERATED from the Python text (DenseOnlineGen.v) ---------------- *)
+Theorem C05_generated_operations :
+  forall (VS : Val) (AR : Arith VS) (T : Type) (tltb teqb : T -> T -> bool),
+  let B := fun f => bin_update_g T tltb teqb f in
+  let S (A : Type) (abs : A -> @ostate VS T) (r : option (A * list (T * V))) := option_map (fun p => (abs (fst p), snd p)) r in
+  (* binary classes built on intersection() *)
+  (forall st b1 b2, S _ (And_abs T) (gen_And_update AR T tltb teqb st b1 b2) = B vmin (And_abs T st) b1 b2) /\
+  (forall st b1 b2, option_map (fun p => And_sample_last_buf (fst p)) (gen_And_update AR T tltb teqb st b1 b2)
+                    = option_map (fun _ => And_sample_last_buf st) (B vmin (And_abs T st) b1 b2)) /\
+  (forall st b1 b2, S _ (Or_abs T) (gen_Or_update AR T tltb teqb st b1 b2) = B vmax (Or_abs T st) b1 b2) /\
+  (forall st b1 b2, S _ (Implies_abs T) (gen_Implies_update AR T tltb teqb st b1 b2) = B (fun l r => vmax (neg l) r) (Implies_abs T st) b1 b2) /\
+  (forall st b1 b2, S _ (Iff_abs T) (gen_Iff_update AR T tltb teqb st b1 b2) = B (fun l r => neg (a1 AR Abs (a2 AR Sub l r))) (Iff_abs T st) b1 b2) /\
+  (forall st b1 b2, S _ (Xor_abs T) (gen_Xor_update AR T tltb teqb st b1 b2) = B (fun l r => a1 AR Abs (a2 AR Sub l r)) (Xor_abs T st) b1 b2) /\
+  (forall st b1 b2, S _ (Addition_abs T) (gen_Addition_update AR T tltb teqb st b1 b2) = B (a2 AR Add) (Addition_abs T st) b1 b2) /\
+  (forall st b1 b2, S _ (Subtraction_abs T) (gen_Subtraction_update AR T tltb teqb st b1 b2) = B (a2 AR Sub) (Subtraction_abs T st) b1 b2) /\
+  (forall st b1 b2, S _ (Division_abs T) (gen_Division_update AR T tltb teqb st b1 b2) = B (a2 AR Div) (Division_abs T st) b1 b2) /\
+  (forall st b1 b2, S _ (Pow_abs T) (gen_Pow_update AR T tltb teqb st b1 b2) = B (a2 AR Pow) (Pow_abs T st) b1 b2) /\
+  (forall st b1 b2, S _ (Log_abs T) (gen_Log_update AR T tltb teqb st b1 b2) = B (a2 AR Log) (Log_abs T st) b1 b2) /\
+  (* multiplication: last_output is forgotten at every update *)
+  (forall st b1 b2 lo, gen_Multiplication_update AR T tltb teqb st b1 b2 =
+     match DenseOnlineMon.mul_update_g T tltb teqb (a2 AR Mul)
+             {| lbuf := Multiplication_sample_left_buf st; rbuf := Multiplication_sample_right_buf st; lout := lo |} b1 b2 with
+     | None => None
+     | Some (st', o) => Some (mk_Multiplication_state (lbuf st') (rbuf st'), o)
+     end) /\
+  (* unary point-wise classes *)
+  (forall st s, gen_Not_update AR T tltb teqb st s = match unary_update T not_fn tt s with None => None | Some (_, o) => Some (st, o) end) /\
+  (forall st s, gen_Abs_update AR T tltb teqb st s = unary_update T (total_fn AR Abs) st s) /\
+  (forall st s, gen_Negate_update AR T tltb teqb st s = unary_update T not_fn st s) /\
+  (forall st s, gen_Sqrt_update AR T tltb teqb st s = unary_update T (sqrt_fn AR) st s) /\
+  (forall st s, gen_Exp_update AR T tltb teqb st s = unary_update T (total_fn AR Exp) st s) /\
+  (forall st s, gen_Ln_update AR T tltb teqb st s = unary_update T (partial_fn AR Ln (fun v => ltb (azero AR) v)) st s) /\
+  (* once / historically / always *)
+  (forall st s, gen_Once_update AR T tltb teqb st s =
+     match once_update T {| fprev := Once_prev st |} s with None => None | Some (st', o) => Some (mk_Once_state (fprev st'), o) end) /\
+  (forall st s, gen_Historically_update AR T tltb teqb st s =
+     match hist_update T {| fprev := Historically_prev st |} s with None => None | Some (st', o) => Some (mk_Historically_state (fprev st'), o) end) /\
+  (forall st s, gen_Always_update AR T tltb teqb st s =
+     match alw_update T {| fprev := Always_prev st |} s with None => None | Some (st', o) => Some (mk_Always_state (fprev st'), o) end) /\
+  (* since *)
+  (forall st b1 b2, gen_Since_update AR T tltb teqb st b1 b2 =
+     match since_update T tltb (Since_abs T st) (b1, b2) with None => None | Some (st', o) => Some (Since_conc T st', o) end) /\
+  (* __init__ and the functions handed to intersection() *)
+  And_abs T (And_init T) = ostate0 /\ Since_abs T (Since_init T) = since_init /\ Once_prev (Once_init T) = bot /\
+  Historically_prev (Historically_init T) = top /\ Always_prev (Always_init T) = top /\
+  gen_m_conjunction AR = vmin /\ gen_m_disjunction AR = vmax /\ gen_m_multiplication AR = a2 AR Mul /\ gen_m_division AR = a2 AR Div /\
+  gen_m_power AR = a2 AR Pow /\ gen_m_log AR = a2 AR Log.
+Proof. exact @dense_online_gen_refines. Qed.
+Print Assumptions C05_generated_operations.
+
+Theorem C05_generated_binary_chunking :
+  forall (VS : Val) (AR : Arith VS) (s1 s2 : dsig) (bs : list (dsig * dsig)),
+  dsorted s1 -> dsorted s2 -> s1 <> [] -> s2 <> [] -> feeds [] [] bs s1 s2 ->
+  let F := Z.min (lastT s1) (lastT s2) in
+  let t0 := Z.max (start s1) (start s2) in
+  let OK (St : Type) (upd : St -> dsig -> dsig -> option (St * dsig)) (i : St) (f : V -> V -> V) :=
+    exists st outs,
+      run_g (fun st (b : dsig * dsig) => upd st (fst b) (snd b)) i bs = Some (st, outs) /\
+      wsorted (concat outs) /\
+      (forall a v, In (a, v) (concat outs) -> t0 <= a <= F) /\
+      (forall t, t0 <= t <= F -> den_opt (concat outs) t = Some (f (den s1 t) (den s2 t))) in
+  OK _ (gen_And_update AR Z Z.ltb Z.eqb) (And_init Z) vmin /\
+  OK _ (gen_Or_update AR Z Z.ltb Z.eqb) (Or_init Z) vmax /\
+  OK _ (gen_Implies_update AR Z Z.ltb Z.eqb) (Implies_init Z) (fun l r => vmax (neg l) r) /\
+  OK _ (gen_Iff_update AR Z Z.ltb Z.eqb) (Iff_init Z) (fun l r => neg (a1 AR Abs (a2 AR Sub l r))) /\
+  OK _ (gen_Xor_update AR Z Z.ltb Z.eqb) (Xor_init Z) (fun l r => a1 AR Abs (a2 AR Sub l r)) /\
+  OK _ (gen_Addition_update AR Z Z.ltb Z.eqb) (Addition_init Z) (a2 AR Add) /\
+  OK _ (gen_Subtraction_update AR Z Z.ltb Z.eqb) (Subtraction_init Z) (a2 AR Sub) /\
+  OK _ (gen_Division_update AR Z Z.ltb Z.eqb) (Division_init Z) (a2 AR Div) /\
+  OK _ (gen_Pow_update AR Z Z.ltb Z.eqb) (Pow_init Z) (a2 AR Pow) /\
+  OK _ (gen_Log_update AR Z Z.ltb Z.eqb) (Log_init Z) (a2 AR Log).
+Proof. exact @dense_online_gen_binary_chunking. Qed.
+Print Assumptions C05_generated_binary_chunking.
+
+(* the generated Division class (no direct correspondence stream reaches it) on a concrete run: the boundary sample is dropped *)
+Example C05_generated_nonvacuous :
+  option_map snd (run_g (fun st (b : list (Z * extz) * list (Z * extz)) => gen_Division_update ExtZArith Z Z.ltb Z.eqb st (fst b) (snd b))
+                        (Division_init Z)
+                        [([(0, Fin 6)], [(0, Fin 2)]); ([(0, Fin 9); (2, Fin 8)], [(3, Fin 4)]); ([(5, Fin 4)], [(6, Fin 1)])])
+  = Some [[(0, Fin 3)]; [(2, Fin 4)]; [(3, Fin 2); (5, Fin 1)]].
+Proof. vm_compute. reflexivity. Qed.
